@@ -109,11 +109,11 @@ theorem cleanTo_repRaw (b : BInfo) (idSe : Dest) (back : Option Dest) (i : Nat)
     (hne : b.repeatStart = true ∨ back.isSome = true ∨ b.isEnd = true)
     (hid : idSe = .fin ∨ idSe = .seg (i + 1))
     (hback : ∀ d, back = some d → ∃ j, d = .seg j ∧ j ≤ i) :
-    cleanTo (repRaw b idSe back) = some (back.toList ++ [idSe], []) := by
+    cleanToBase (repRaw b idSe back) = some (back.toList ++ [idSe], []) := by
   cases back with
   | none =>
     rcases hid with rfl | rfl <;> cases hrs : b.repeatStart <;> cases hie : b.isEnd <;>
-      simp_all [cleanTo, repRaw, insSorted]
+      simp_all [cleanToBase, nav1Of, repRaw, insSorted]
   | some d =>
     obtain ⟨j, rfl, hj⟩ := hback d rfl
     have h1 : j < i + 1 := by omega
@@ -121,7 +121,11 @@ theorem cleanTo_repRaw (b : BInfo) (idSe : Dest) (back : Option Dest) (i : Nat)
     have h3 : ¬ i + 1 = j := by omega
     have h4 : ¬ j = i + 1 := by omega
     rcases hid with rfl | rfl <;> cases hrs : b.repeatStart <;> cases hie : b.isEnd <;>
-      simp [cleanTo, repRaw, insSorted, h1, h2, h3, hrs, hie]
+      simp [cleanToBase, nav1Of, repRaw, insSorted, h1, h2, h3, hrs, hie]
+
+theorem nav1Of_repRaw (b : BInfo) (idSe : Dest) (back : Option Dest) : nav1Of (repRaw b idSe back) = [] := by
+  unfold nav1Of repRaw
+  cases b.repeatStart <;> cases back <;> cases b.isEnd <;> simp
 
 /-! ### `lastSome` -/
 
@@ -181,14 +185,6 @@ theorem lastSome_eq_some {α β : Type} (f : α → Option β) (l : List α) (b 
 
 /-! ### r pairwise disjoint simple repeats over symbolic boundary times -/
 
-/-- section `i = [ts[i], ts[i+1])` carries a repeat iff `flags[i]` -/
-def chainRepeats : List Int → List Bool → List (Int × Int)
-  | a :: b :: ts, f :: fs => (if f then [(a, b)] else []) ++ chainRepeats (b :: ts) fs
-  | _, _ => []
-
-/-- the layout: boundary times `t0 :: rest` (strictly increasing), the flagged sections repeated, nothing else -/
-def chainLayout (t0 : Int) (rest : List Int) (flags : List Bool) : Layout :=
-  { first := t0, last := rest.getLastD t0, repeats := chainRepeats (t0 :: rest) flags }
 
 /-- two neighbouring sections without a repeat would be one segment: there is no boundary between them -/
 def NoAdjFalse (flags : List Bool) : Prop :=
@@ -444,6 +440,9 @@ theorem chain_isKey (t : Int) : t ∈ (t0 :: rest) ↔ isKey (chainLayout t0 res
 /-- type of segment `j`: "the first segment is always a leap destination" is tested as `ss == 0` -/
 def tyAt (ts : List Int) (j : Nat) : SegType := if ts.getD j 0 = 0 then .leapEnd else .dflt
 
+theorem tyAt_ne (ts : List Int) (i : Nat) : tyAt ts i ≠ SegType.leapStart := by
+  unfold tyAt; split <;> simp
+
 def chainTys (ts : List Int) : List SegType := ts.map fun t => if t = 0 then .leapEnd else .dflt
 
 theorem chainTys_getD (ts : List Int) (j : Nat) (h : j < ts.length) : (chainTys ts).getD j .dflt = tyAt ts j := by
@@ -590,7 +589,8 @@ theorem chain_mkSegments :
     have e1 : (t0 :: rest).getD (i + 1) 0 = (t0 :: rest)[i + 1] := by
       rw [List.getD_eq_getElem?_getD, hse]; rfl
     refine ⟨_, _, (if flagAt flags i then some (Dest.seg i) else none).toList ++ [nextDest flags.length i], [], hss, hse, ?_, ?_⟩
-    · simp only [chainInfo, e1]
+    · simp only [chainInfo, e1, Nat.zero_add]
+      rw [cleanTo_noNav _ _ (nav1Of_repRaw _ _ _)]
       apply cleanTo_repRaw _ _ _ i
       · rw [g4, g6]
         by_cases hlast : i + 1 = flags.length
